@@ -43,6 +43,11 @@ def calls(rng):
     pool.append(('xta-array-abort-eof', lambda j: j.model('xta', 'int a[int[0,3]][int[0,1]][').dump('errors')))
     xml('xml-array-abort-eof', g='int i; clock x; int a[int[0,3]][int[0,1]][int[0,2]][')
     pool.append(('xta-transition-abort-eof', lambda j: j.model('xta', 'int i;\nprocess P() { state LongSourceName, B; init LongSourceName; trans LongSourceName -> B { guard i == 0; }, -> ').dump('errors')))
+    # scalar sets get generated names (#scalarsetN): the numbering belongs to the parse, not to the process
+    xml('xml-scalar-sets', g='int i; clock x; typedef scalar[3] sid_t; scalar[2] ss; sid_t owner; int per[sid_t];')
+    xml('xml-scalar-sets-2', g='int i; clock x; scalar[4] sa; scalar[4] sb;', l='scalar[2] sl;')
+    pool.append(('xta-scalar-sets', lambda j: j.model('xta', 'typedef scalar[2] u_t; u_t a; scalar[3] b; int i;\nprocess P(u_t me) { state A; init A; }\nsystem P;\n').dump('errors').dump('doc')))
+    pool.append(('xta-scalar-error', lambda j: j.model('xta', 'scalar[2] a; scalar[3] b; int i = a;\nprocess P() { state A; init A; }\nsystem P;\n').dump('errors').dump('doc')))
     # literals outside the range of their type leave errno (ERANGE) behind in the C library: process-global state a later call must not read
     xml('xml-huge-double', g='int i; clock x; double d = 1e999;')
     xml('xml-huge-int', g='int i; clock x; int k = 99999999999999999999;')
